@@ -65,6 +65,12 @@ KB_U20 == [j \in 1..20 |->
   IF j <= 16 THEN Str(LMNO) \o Rep(cx, 2990) \o Str(<<ca + (j \div 4), ca + (j % 4)>>)
   ELSE IF j = 17 THEN Str(<<ca>>) ELSE IF j = 18 THEN Str(LMNO) ELSE IF j = 19 THEN Str(<<cz>>) ELSE <<>>]
 
+\* --- U36: thirty-six ~3 KB keys. The preload Pre_Full inserts the odd ones in ascending order: leaves of three keys (a
+\*     leaf takes five) under a root that is full with six children. Three more keys into the range of one leaf split
+\*     that leaf and then the ROOT INTERIOR page - at every child position (first, middle, second to last, last), which
+\*     sorted or reverse fills never do
+KB_U36 == [j \in 1..36 |-> Str(LMNO) \o Rep(cx, 2990) \o Str(<<ca + (j \div 6), ca + (j % 6)>>)]
+
 \* --- UBig: cells that fit a page but not two to a half: A (2001-byte key) and C fit one leaf together with 6000-byte
 \*     values, B (3001-byte key) between them fits with neither (a full leaf [A, C] + B cannot be split in two)
 KB_UBig == << Str(<<ca>>) \o Rep(cx, 2000), Str(<<cb>>) \o Rep(cx, 3000), Str(<<cc>>) \o Rep(cx, 2000) >>
@@ -91,6 +97,8 @@ Pre_U6 == <<
   \* right leaf [3,4] full of dead cells: re-inserting its first key makes an empty leaf split
   <<Op("ins", 1, 8), Op("ins", 2, 8), Op("ins", 3, 8), Op("ins", 4, 8), Op("del", 3, 0), Op("del", 4, 0)>> >>
 NoPreload == << <<>> >>
+Pre_Full == << [i \in 1..18 |-> Op("ins", 2 * i - 1, 1)] >>
+OpVals_Full == [ins |-> {1}, ifabs |-> {}, app |-> {}, upd |-> {}, del |-> {}, get |-> {}, fwd |-> {}, back |-> {}]
 OpVals_U6 == [ins |-> {1, 3, 6, 8}, ifabs |-> {3}, app |-> {3, 8}, upd |-> {1, 3, 6, 8}]
 OpVals_Big == [ins |-> {1, 8}, ifabs |-> {8}, app |-> {8}, upd |-> {1, 8}]
 
